@@ -77,7 +77,9 @@ def run_tool(tool, argv, fs, sim=None, stdin=b"", stdin_plan=None,
                    encoding=stdio_encoding)
     se = SimStream(name="<stderr>", encoding=stdio_encoding,
                    errors="backslashreplace")
-    si = text_reader(stdin, name="<stdin>", plan=stdin_plan)
+    # (the interpreter opens the standard input of a POSIX process with
+    # newline="\n": a lone CR does not end a line there)
+    si = text_reader(stdin, name="<stdin>", plan=stdin_plan, newline="\n")
     saved = (sys.argv, sys.stdin, sys.stdout, sys.stderr)
     reset_process_state()
     sys.argv = [tool] + [str(a) for a in argv]
